@@ -125,7 +125,15 @@ def lens_in(s):
     return r
 
 
-COMP = ['absent', 'scalar', 'same', 'flat5', 'otherdict', 'partialdict']
+def _flip(s):
+    if s == 'L':
+        return s
+    if s[0] == 'dict':
+        return ['dict'] + [[k, _flip(c)] for k, c in s[1:]]
+    return [{'list': 'tuple', 'tuple': 'list'}[s[0]]] + [_flip(c) for c in s[1:]]
+
+
+COMP = ['absent', 'scalar', 'same', 'sameflip', 'flat5', 'otherdict', 'partialdict']
 
 
 def companion(kind, s, tag):
@@ -133,6 +141,8 @@ def companion(kind, s, tag):
         return 7 if tag == 'y' else 'zz'
     if kind == 'same':
         return build(s, lambda p: tag + '/' + '/'.join(map(str, p)))
+    if kind == 'sameflip':           # same lengths / keys, but every list is a tuple and every tuple a list: still matched element by element
+        return build(_flip(s), lambda p: tag + '/' + '/'.join(map(str, p)))
     if kind == 'flat5':
         return [tag + str(i) for i in range(5)]
     if kind == 'otherdict':
@@ -145,7 +155,7 @@ def companion(kind, s, tag):
 def comp_at(kind, s, tag, path, default):
     if kind == 'absent':
         return default
-    if kind == 'same':
+    if kind in ('same', 'sameflip'):
         return tag + '/' + '/'.join(map(str, path))
     return companion(kind, s, tag)
 
